@@ -737,37 +737,138 @@ ph!(c05_partial_hessian_m3_n2, 3, 2, 8);
 ph!(c05_partial_hessian_m2_n3, 2, 3, 8);
 
 // ===================================================================== dynamic sizes (BOUNDED)
-// `DVector` / `Dyn` flavour of gradient.  BOUNDED: fixed length n = 2.  The probe is reduced
-// to keep CBMC's memory in check (heap-allocated storage): the seed is inspected *inside* the
-// closure (no clone of the argument), there is no Err path, the returned eps is present.
+// `DVector` / `Dyn` flavours.  BOUNDED: fixed length n per harness (n <= 3).  To keep CBMC's
+// memory in check with heap-allocated storage, the seed is inspected *inside* the closure
+// (the argument is not cloned out).
+fn dyn_absent<R: nalgebra::Dim, C: nalgebra::Dim>(d: &Derivative<f64, f64, R, C>) -> bool
+where
+    nalgebra::DefaultAllocator: nalgebra::allocator::Allocator<R, C>,
+{
+    *d == Derivative::none()
+}
+fn dvec<const N: usize>(a: &[f64; N]) -> DVector<f64> {
+    DVector::from_fn(N, |i, _| a[i])
+}
+
+/// seed check for gradient/jacobian: v[i] = (x[i], e_i)
+fn dyn_seed_ok<const N: usize>(v: &DVector<DualDVec64>, xs: &[f64; N]) -> bool {
+    let mut ok = v.len() == N;
+    let mut i = 0;
+    while ok && i < N {
+        ok &= b64(v[i].re) == b64(xs[i]) && !dyn_absent(&v[i].eps);
+        let e = v[i].eps.clone().unwrap_generic(Dyn(N), U1);
+        ok &= e.len() == N;
+        let mut k = 0;
+        while ok && k < N {
+            ok &= b64(e[k]) == if k == i { ONE } else { 0 };
+            k += 1;
+        }
+        i += 1;
+    }
+    ok
+}
+
+fn check_gradient_dyn<const N: usize>() {
+    let xs: [f64; N] = kani::any();
+    let es: [f64; N] = kani::any();
+    let out_re: f64 = kani::any();
+    let out_present: bool = kani::any();
+    let (fail, err): (bool, E) = (kani::any(), kani::any());
+    let mut seed_ok = false;
+    let r = try_gradient(
+        |v: DVector<DualDVec64>| {
+            seed_ok = dyn_seed_ok(&v, &xs);
+            if fail {
+                Err(err)
+            } else {
+                let eps = if out_present { Derivative::some(dvec(&es)) } else { Derivative::none() };
+                Ok(DualDVec64::new(out_re, eps))
+            }
+        },
+        dvec(&xs),
+    );
+    assert!(seed_ok, "gradient (Dyn) seed: same length, x[i].re = input, x[i].eps present = i-th unit vector of length n");
+    match r {
+        Ok((f, g)) => {
+            assert!(!fail, "try_gradient (Dyn): Ok only if closure Ok");
+            assert!(b64(f) == b64(out_re), "gradient (Dyn) result.0 == out.re");
+            assert!(g.len() == N, "gradient (Dyn) result.1 has length n");
+            let mut i = 0;
+            while i < N {
+                assert!(b64(g[i]) == if out_present { b64(es[i]) } else { 0 }, "gradient (Dyn) result.1[i] == out.eps[i] (zeros when absent)");
+                i += 1;
+            }
+        }
+        Err(e) => assert!(fail && e == err, "try_gradient (Dyn): Err(e) passes through"),
+    }
+}
+#[kani::proof]
+#[kani::unwind(3)]
+fn c05_gradient_dyn_n1() {
+    check_gradient_dyn::<1>();
+}
 #[kani::proof]
 #[kani::unwind(4)]
 fn c05_gradient_dyn_n2() {
-    let (x0, x1): (f64, f64) = (kani::any(), kani::any());
-    let (e0, e1): (f64, f64) = (kani::any(), kani::any());
+    check_gradient_dyn::<2>();
+}
+#[kani::proof]
+#[kani::unwind(5)]
+fn c05_gradient_dyn_n3() {
+    check_gradient_dyn::<3>();
+}
+
+// NOTE: a Dyn/Dyn `jacobian` probe (DVector<DualDVec64> result, m,n <= 2) was tried and
+// abandoned: CBMC runs out of memory (> 40 GB) on the nested heap storage
+// (`res.map(..)` + `OMatrix::from_rows`), even for m = 1, n = 2.  Not covered for Dyn.
+
+/// hessian with Dyn length N; returned v1, v2 present
+fn check_hessian_dyn<const N: usize>() {
+    let xs: [f64; N] = kani::any();
+    let g1: [f64; N] = kani::any();
+    let h2: [[f64; N]; N] = kani::any();
     let out_re: f64 = kani::any();
     let mut seed_ok = false;
-    let (f, g) = gradient(
-        |v: DVector<DualDVec64>| {
-            let mut ok = v.len() == 2;
-            if ok {
-                let a = v[0].eps.clone().unwrap_generic(Dyn(2), U1);
-                let b = v[1].eps.clone().unwrap_generic(Dyn(2), U1);
-                ok = b64(v[0].re) == b64(x0)
-                    && b64(v[1].re) == b64(x1)
-                    && a.len() == 2
-                    && b.len() == 2
-                    && b64(a[0]) == ONE
-                    && b64(a[1]) == 0
-                    && b64(b[0]) == 0
-                    && b64(b[1]) == ONE;
+    let (f, g, h) = hessian(
+        |v: DVector<Dual2DVec64>| {
+            let mut ok = v.len() == N;
+            let mut i = 0;
+            while ok && i < N {
+                ok &= b64(v[i].re) == b64(xs[i]) && !dyn_absent(&v[i].v1) && dyn_absent(&v[i].v2);
+                let e = v[i].v1.clone().unwrap_generic(U1, Dyn(N));
+                ok &= e.nrows() == 1 && e.ncols() == N;
+                let mut k = 0;
+                while ok && k < N {
+                    ok &= b64(e[(0, k)]) == if k == i { ONE } else { 0 };
+                    k += 1;
+                }
+                i += 1;
             }
             seed_ok = ok;
-            DualDVec64::new(out_re, Derivative::some(DVector::from_vec(vec![e0, e1])))
+            Dual2DVec64::new(
+                out_re,
+                Derivative::some(nalgebra::RowDVector::from_fn(N, |_, j| g1[j])),
+                Derivative::some(nalgebra::DMatrix::from_fn(N, N, |i, j| h2[i][j])),
+            )
         },
-        DVector::from_vec(vec![x0, x1]),
+        dvec(&xs),
     );
-    assert!(seed_ok, "gradient (Dyn, n=2) seed: re = inputs, eps = unit vectors");
-    assert!(b64(f) == b64(out_re), "gradient (Dyn, n=2) result.0 == out.re");
-    assert!(g.len() == 2 && b64(g[0]) == b64(e0) && b64(g[1]) == b64(e1), "gradient (Dyn, n=2) result.1 == out.eps");
+    assert!(seed_ok, "hessian (Dyn) seed: x[i].re = input, x[i].v1 = i-th unit row, x[i].v2 absent");
+    assert!(b64(f) == b64(out_re), "hessian (Dyn) result.0 == out.re");
+    assert!(g.len() == N && h.nrows() == N && h.ncols() == N, "hessian (Dyn) result shapes");
+    let mut i = 0;
+    while i < N {
+        assert!(b64(g[i]) == b64(g1[i]), "hessian (Dyn) result.1[i] == out.v1[(0,i)]");
+        let mut j = 0;
+        while j < N {
+            assert!(b64(h[(i, j)]) == b64(h2[i][j]), "hessian (Dyn) result.2[(i,j)] == out.v2[(i,j)]");
+            j += 1;
+        }
+        i += 1;
+    }
+}
+#[kani::proof]
+#[kani::unwind(7)]
+fn c05_hessian_dyn_n2() {
+    check_hessian_dyn::<2>();
 }
